@@ -400,6 +400,14 @@ func runCoreScripted(seed uint64, n int, out *Out) {
 			c.depositFor(m, 2, 1, 500) // uses the grant up exactly
 			c.depositFor(m, 2, 1, 100)
 			c.endBlock()
+			// at exactly the expiry time a grant can still be used up, but not used in part (authz refuses to save a
+			// grant whose expiration is not after the block time)
+			c.grant(1, 2, 0, 500, 10)
+			c.endBlock()
+			c.endBlock() // 10 s later: block time = expiry
+			c.depositFor(m, 2, 1, 200)
+			c.depositFor(m, 2, 1, 500)
+			c.endBlock()
 		},
 		// 10: the withdrawal limit is lowered below the number of withdrawals a deposit already made: every further
 		//     withdrawal of that deposit is refused; raised again, exactly the difference is allowed
